@@ -84,8 +84,8 @@ Definition surname_first (xs : list bytes) : list bytes :=
 (* the local variable individualName of ENRPaymentInformation.String *)
 Definition enr_name_out (name code : bytes) : bytes :=
   if is_business code then
-    (trim (fmt_s 15 15 name) ++ [star])
-    ++ (if (15 <? rune_count name)%nat then trim (fmt_s 7 7 (skipn 15 name)) else [])
+    let first := trim (fmt_s 15 15 name) ++ [star] in
+    if (15 <? rune_count name)%nat then first ++ trim (fmt_s 7 7 (skipn 15 name)) else first
   else join [star] (surname_first (fields name)).
 
 (* what String() prints, one element per '*'-separated position of the format
